@@ -26,6 +26,8 @@ SITE   (tools/sitegen/validators.py, output coq/Gen/S_validators.v, header also 
                               unparsed text is `text`:  def f(params): return <elt>
     ("assign_value", name)    the right-hand side of the (unique) assignment `name = <expr>` in the function:
                                   def f(params): return <expr>
+    ("while_test", k)         the test of the k-th `while` among the function's top-level statements:
+                                  def f(params): return <test>
     ("stmt_present", text) / ("if_test_present", text)
                               a boolean constant `true`; fails unless a statement with this exact text exists
                               (a call-site fact the model relies on)
@@ -88,6 +90,11 @@ SITE = [
     dict(name="sv_td_newshape_b", file=CM, func="tensordot", locator=("assign_value", "newshape_b"), params=["N2"]),
     dict(name="site_td_shortcut", file=CM, func="tensordot",
          locator=("if_test_present", "builtins.any((dim == 0 for dim in chain(newshape_a, newshape_b)))")),
+    # the outer-loop tests of the two COO x ndarray kernels (the guard that repaired D3 lives here)
+    dict(name="sv_dcn_outer_test", file=CM, func="_dot_coo_ndarray_type._dot_coo_ndarray", locator=("while_test", 0),
+         params=["didx1", "n", "ncols"], extern={"len(data1)": "Ok n", "out_shape[1]": "Ok ncols"}),
+    dict(name="sv_dcs_outer_test", file=CM, func="_dot_coo_ndarray_type_sparse._dot_coo_ndarray", locator=("while_test", 0),
+         params=["didx1", "n", "ncols"], extern={"len(data1)": "Ok n", "out_shape[1]": "Ok ncols"}),
     # _dot hands the COO x ndarray kernels the output shape (a.shape[0], b.shape[1]) with no further guard
     dict(name="site_dot_out_shape", file=CM, func="_dot", locator=("stmt_present", "out_shape = (a.shape[0], b.shape[1])")),
 ]
